@@ -155,7 +155,8 @@ for pid, what in PY_TIE.items():
     c = CLAIMED[pid]
     c["text"] += (" Source translator: tools/py2lean.py symbolically executes the Python source of " + what + " on every run and rewrites "
                   "Generated/Py*.lean; bridge theorems (Bridge/Py*.lean) prove the translated definitions equal to the model functions for all real arguments "
-                  "(an untranslatable source makes the obligation trivial and is recorded as t_tie: unavailable).")
+                  "(an untranslatable source makes the obligation trivial and is recorded as t_tie: unavailable). The translator is validated on every run: the original Python statements (CPython, "
+                  "inside the real module) and the generated definitions (at Float) are executed on the same inputs (harness/pyvalidate.py).")
     c["technique"] += " + source-to-Lean translator (py2lean) with equality theorems"
 CLAIMED["C04"]["note"] = ("Trusted: np.percentile ('linear' method, modelled by its contract: monotone in p and bounded by min/max are proved for the model, "
                           "Props/C04.lean percentile_mono/percentile_bounds, and tested on the implementation); rotation invariance and 180-degree periodicity are composed through the whole chain (Props/C04Rot.lean).")
